@@ -268,11 +268,13 @@ pub fn check(c: &Case, cs: &mut CaseStats) -> Result<(), String> {
         Ok(())
     };
     // ---- all permutations of the removed subset (exhaustive up to 7), kept ones shuffled
-    let perms: Vec<Vec<usize>> = if r <= 7 {
+    // (the coverage-guided target sets MVV_LIGHT: fewer orders per case, more cases per second)
+    let light = std::env::var_os("MVV_LIGHT").is_some();
+    let perms: Vec<Vec<usize>> = if r <= if light { 4 } else { 7 } {
         cs.count("cells_exhaustive_removed_orders", 1);
         permutations(r)
     } else {
-        (0..2000)
+        (0..if light { 60 } else { 2000 })
             .map(|_| {
                 let mut p: Vec<usize> = (0..r).collect();
                 rng.shuffle(&mut p);
@@ -292,10 +294,10 @@ pub fn check(c: &Case, cs: &mut CaseStats) -> Result<(), String> {
     }
     // ---- all permutations of the whole array when it is small, sampled interleavings otherwise
     let nv = cell.vertices.len();
-    let whole: Vec<Vec<usize>> = if nv <= 7 {
+    let whole: Vec<Vec<usize>> = if nv <= 7 && !light {
         permutations(nv)
     } else {
-        (0..300)
+        (0..if light { 20 } else { 300 })
             .map(|_| {
                 let mut p: Vec<usize> = (0..nv).collect();
                 rng.shuffle(&mut p);
